@@ -364,3 +364,23 @@ func contract_UnmarshalOptions_unmarshalSingular(o UnmarshalOptions, b []byte, w
 	ensuresTrusted(imp(err == nil, 0 <= n && n <= len(b)))
 	return
 }
+
+// ---------------------------------------------------------------- reflection merge (C07, C14)
+
+// mergeMessage: a field value is stored over the destination's (dst.Set) only for fields that hold
+// neither messages nor lists nor maps - message-typed fields of EITHER encoding (length-prefixed or
+// group / DELIMITED) are merged recursively into the destination's message, as the wire semantics
+// (last occurrence merges) and the table-driven merge do; a bytes value is stored only as a clone;
+// unknown fields are appended to the destination's own buffer (extended in place or fresh).
+//
+// @ props C07 C14
+// @ mode int
+// @ nopanic
+// @ pure protoreflect.FieldDescriptor.Kind
+// @ callsite dst.Set: fd.Message() == nil && !fd.IsList() && !fd.IsMap()
+// @ site dst.Set(fd, v): fd.Kind() != protoreflect.BytesKind
+// @ callsite dst.SetUnknown: freshSlice(arg[protoreflect.RawFields](0)) || sameArray(arg[protoreflect.RawFields](0), dst.GetUnknown())
+func contract_mergeOptions_mergeMessage(o mergeOptions, dst, src protoreflect.Message) {
+	modifiesAll()
+	return
+}
